@@ -49,6 +49,8 @@ type scriptConn struct {
 	rerr    string // "", "closed", "reset": the error the read at the end of the stream returns (default EOF)
 	wfail   int    // >0: the wfail-th and every later Write fails
 	writes  int
+	// deadlines the framework armed (see segReader: segments are an hour apart on this transport's clock)
+	rdeadline, wdeadline time.Time
 }
 
 func (c *scriptConn) Read(b []byte) (int, error) {
@@ -57,10 +59,15 @@ func (c *scriptConn) Read(b []byte) (int, error) {
 		time.Sleep(c.lag)
 		c.lag = 0
 	}
+	waited := false
 	for len(c.segs) > 0 && len(c.segs[0]) == 0 {
 		// the current segment is used up: the loop now waits for bytes that have not been sent yet
 		c.segs = c.segs[1:]
 		c.blocks = append(c.blocks, countFrames(c.written))
+		waited = true
+	}
+	if waited && !c.rdeadline.IsZero() && time.Now().Add(idleGap).After(c.rdeadline) {
+		return 0, timeoutError{}
 	}
 	if len(c.segs) == 0 {
 		// how the stream ends: an orderly end (EOF), the socket closed underneath the reader (Stop), or a reset by the peer
@@ -119,9 +126,9 @@ func (c *scriptConn) Close() error {
 }
 func (c *scriptConn) LocalAddr() net.Addr                { return memAddr{} }
 func (c *scriptConn) RemoteAddr() net.Addr               { return memAddr{} }
-func (c *scriptConn) SetDeadline(t time.Time) error      { return nil }
-func (c *scriptConn) SetReadDeadline(t time.Time) error  { return nil }
-func (c *scriptConn) SetWriteDeadline(t time.Time) error { return nil }
+func (c *scriptConn) SetDeadline(t time.Time) error      { c.rdeadline, c.wdeadline = t, t; return nil }
+func (c *scriptConn) SetReadDeadline(t time.Time) error  { c.rdeadline = t; return nil }
+func (c *scriptConn) SetWriteDeadline(t time.Time) error { c.wdeadline = t; return nil }
 
 // ---------------------------------------------------------------------------------------------------
 // handler double: records every call with its decoded arguments, answers from the script
@@ -406,6 +413,7 @@ type serveCase struct {
 	rerr      string
 	lag       time.Duration
 	memo      bool
+	app       []string
 	segs      [][]byte
 	script    []scriptedResult
 }
@@ -487,6 +495,11 @@ func parseServeCase(toks []string) *serveCase {
 			c.rerr = t[5:]
 		case t == "memo":
 			c.memo = true
+		case strings.HasPrefix(t, "app="):
+			// executors the application registers itself, under these names (hex, comma separated)
+			for _, h := range strings.Split(t[4:], ",") {
+				c.app = append(c.app, string(unhx(h)))
+			}
 		case strings.HasPrefix(t, "lag="):
 			ms, _ := strconv.Atoi(t[4:])
 			c.lag = time.Duration(ms) * time.Millisecond
@@ -528,6 +541,16 @@ func newServerFor(c *serveCase, log *eventLog) (*redis.Server, *double) {
 	}
 	if c.trace {
 		srv.SetTracer(&recTracer{log: log})
+	}
+	for _, name := range c.app {
+		// the simplest executor that reaches the handler: one string argument, then Get
+		srv.RegisterExexutor(name, func(conn *redis.Conn, cmd string, args redis.Arguments) (*redis.Message, error) {
+			key, err := args.NextString()
+			if err != nil {
+				return nil, err
+			}
+			return d.Get(conn, key)
+		})
 	}
 	return srv, d
 }
